@@ -54,6 +54,13 @@ static void accessor_case(int m, int n, int ncomp, int nconv)
     RMat A = symx::fresh_mat("A", m, n);
     const int d = std::min(m, n), ncv = ncomp + 1;
     PartialSVDSolver<RMat> svd(A, ncomp, ncv);
+    {
+        // the operator the solver iterates with must be the one the accessors assume: A'A for tall, AA' for wide AND square input
+        RVec x = symx::fresh_vec("x", d), y(d);
+        svd.m_op->perform_op(x.data(), y.data());
+        RVec ref = (m > n) ? RVec(A.transpose() * (A * x)) : RVec(A * (A.transpose() * x));
+        symx::check_mat_eq(m > n ? "solver operator = A'A (tall)" : "solver operator = AA' (wide / square)", y, ref);
+    }
     auto& e = *svd.m_eigs;
     RVec v0 = RVec::Ones(d);
     e.m_ritz_val.resize(ncv);
